@@ -8,7 +8,7 @@ CONSTANTS
   EntQKinds = {"positive"}
   Budget = 1
   Shapes = {"secure3"}
-  Denials = {"nsec", "nsec3"}
+  Denials = {"nsec3"}
   QKinds = {"positive", "wildcard", "wilddeep", "wildsub", "nxdomain", "nxdeep", "wcnodata", "ds"}
   AdvActs = {"OtherQuestion", "DropRrsig", "SwapProof"}
 SPECIFICATION Spec
